@@ -149,14 +149,9 @@ func runC17(p *Program, r *Report) {
 			nTok++
 			key := ename + "/" + tok.Name
 			var bad, und []*Event
-			exempt := 0
 			for _, e := range byObj[tok] {
 				switch e.Kind {
 				case evMutate:
-					if why := exemptStore(p, e); why != "" {
-						exempt++
-						continue
-					}
 					bad = append(bad, e)
 				case evUndecided:
 					und = append(und, e)
@@ -173,9 +168,6 @@ func runC17(p *Program, r *Report) {
 				r.Undecided("R17a", key, posOf(p, e.In), fmt.Sprintf("caller-owned slice %s of %s is %s", tok.Name, ename, e.What))
 			default:
 				d := "no mutation sink is reachable with this backing array"
-				if exempt > 0 {
-					d += fmt.Sprintf("; %d store(s) of an equal value exempted (reviewed: undoDeletion writes back the hash found at a proof position, which for honest blocks is the value already there)", exempt)
-				}
 				r.Discharge("R17a", key, p.Pos(s.fn.Pos()), d, true)
 			}
 		}
@@ -257,57 +249,4 @@ func runC17(p *Program, r *Report) {
 		}
 	}
 	r.Floor("R17b", "slice-carrying results of API entries", nRes, 12)
-}
-
-// exemptStore recognises the single reviewed store of an equal value:
-// (*MapPollard).undoDeletion writes leaf.Hash — the hash returned by
-// Nodes.Get for a proof position — back into proof.Proof[i].
-func exemptStore(p *Program, e *Event) string {
-	st, ok := e.In.(*ssa.Store)
-	if !ok || p.FuncName(st.Parent()) != "(*MapPollard).undoDeletion" || e.Obj.Name != "proof.Proof" {
-		return ""
-	}
-	// stored value: field Hash of the Leaf returned by an invoke of Get on the node map
-	if !leafFromNodesGet(st.Val) {
-		return ""
-	}
-	return "store of the hash read from the node map at that proof position"
-}
-
-// leafFromNodesGet: v reads a field of the Leaf that an invoke of Get (on the
-// package's node-map interface) returned, directly or through a local variable
-// assigned only from such calls.
-func leafFromNodesGet(v ssa.Value) bool {
-	isGet := func(x ssa.Value) bool {
-		ex, ok := x.(*ssa.Extract)
-		if !ok || ex.Index != 0 {
-			return false
-		}
-		c, ok := ex.Tuple.(*ssa.Call)
-		return ok && c.Common().IsInvoke() && c.Common().Method.Name() == "Get"
-	}
-	switch x := v.(type) {
-	case *ssa.Field:
-		return isGet(x.X)
-	case *ssa.UnOp:
-		fa, ok := x.X.(*ssa.FieldAddr)
-		if !ok {
-			return false
-		}
-		al, ok := fa.X.(*ssa.Alloc)
-		if !ok {
-			return false
-		}
-		n := 0
-		for _, ref := range *al.Referrers() {
-			if st, ok := ref.(*ssa.Store); ok && st.Addr == al {
-				if !isGet(st.Val) {
-					return false
-				}
-				n++
-			}
-		}
-		return n > 0
-	}
-	return false
 }
